@@ -51,6 +51,7 @@ def run(prog, R, tier="quick", only_rule=None):
     c06f(prog, R, L)
     c06g(prog, R, L)
     c06h(prog, R, L)
+    c06j(prog, R)
 
 
 def held_classes(L, f, bb, must=True):
@@ -453,3 +454,64 @@ def c06h(prog, R, L, rid="C06.h"):
     # the blob read path resolves against the SuperVersion it read (shared with C02.d / C08.b)
     from rules.props import c02
     c02.c02d(prog, R, rid="C06.i")
+
+
+def c06j(prog, R, rid="C06.j"):
+    """Sealed memtables are removed from the version by id when their flush is registered.  Ids must therefore be unique
+    among the memtables alive at one time: the initial active memtable is created with a constant id by SuperVersions::new,
+    every other one takes memtable_id_counter.next(), and the counter starts above that constant in every constructor of
+    TreeInner (a reopened tree that restarts the counter at the constant gives the first rotated-in memtable the id of the
+    one being flushed: registering the flush drops both, and the unflushed one's writes are lost)."""
+    r = R.rule(rid, "memtable ids are unique: one constant initial id, every other id from a counter that starts above it", "D,G")
+    NEW = "memtable::Memtable::new"
+    consts = {}
+    n = 0
+    for c in prog.all_calls(NEW):
+        n += 1
+        os_ = origins(c.fn, c.args[0])
+        kinds = set()
+        for o in os_:
+            if o.kind == "const":
+                kinds.add("const")
+                consts.setdefault(c.fn.path, set()).add(str(o.what))
+            elif o.kind == "call" and o.extra.sres.endswith("SequenceNumberCounter::next") and \
+                    any("memtable_id_counter" in x.path for x in deep_origins_paths(prog, c.fn, o.extra.args[0])):
+                kinds.add("counter")
+            elif o.kind == "param":
+                kinds.add("param")     # test / bench helpers hand an id through
+            else:
+                kinds.add("other:" + repr(o))
+        where_ok = kinds <= {"counter"} or (kinds == {"const"} and c.fn.path.startswith("version::super_version::SuperVersions::new")) \
+            or kinds == {"param"}
+        r.check(where_ok, "%s|Memtable::new(id from memtable_id_counter.next())" % prog.fns.get(c.fn.root, c.fn).path,
+                "a memtable is created with an id that is neither the initial constant nor taken from the memtable id counter: %s"
+                % sorted(kinds), c.fn.where(c.bb), str(sorted(kinds)))
+    if n < 4:
+        r.anchor_missing("Memtable::new call sites (found %d)" % n)
+    init = consts.get("version::super_version::SuperVersions::new", set())
+    r.check(len(init) == 1, "SuperVersions::new|the initial active memtable has one constant id", "initial memtable id constants: %s" % sorted(init), "", str(sorted(init)))
+    k0 = int(next(iter(init))) if len(init) == 1 and next(iter(init)).isdigit() else None
+    m = 0
+    for p, f in sorted(prog.fns.items()):
+        for b in f.blocks:
+            for st in b["stmts"]:
+                if st["k"] == "assign" and st["rv"]["k"] == "agg" and st["rv"].get("adt") == "tree::inner::TreeInner":
+                    m += 1
+                    idx = st["rv"]["fields"].index("memtable_id_counter")
+                    start = None
+                    for o in origins(f, st["rv"]["ops"][idx]):
+                        if o.kind == "call" and o.extra.sres.endswith("SequenceNumberCounter::new"):
+                            for oo in origins(f, o.extra.args[0]):
+                                if oo.kind == "const" and str(oo.what).isdigit():
+                                    start = int(str(oo.what))
+                    r.check(k0 is not None and start is not None and start > k0, "%s|memtable_id_counter starts above the initial memtable's id" % p,
+                            "the memtable id counter starts at %s although the initial active memtable already has id %s: after this "
+                            "constructor the first rotated-in memtable shares an id with a memtable that may still be in flight" % (start, k0),
+                            f.where(), "start=%s initial=%s" % (start, k0))
+    if m < 2:
+        r.anchor_missing("TreeInner construction sites (found %d)" % m)
+    r.floor(8)
+
+
+def deep_origins_paths(prog, f, op):
+    return [o for (_g, o) in deep_origins(prog, f, op)]
